@@ -13,54 +13,55 @@ compares). -/
 namespace RG
 open MemS Lay
 
-/-- the referents of the fields of one node, copied in field order: the destination after all of them, and per field the address
-of the copy (`none` for scalars and null references) -/
-def xchildren (rec : St → Nat → Nat → Option (St × Nat)) (src : St) : Cls → Nat → St → Option (St × List (Option Nat))
- | [], _, d => some (d, [])
- | .scal :: r, sa, d =>
-    match xchildren rec src r (sa + 8) d with
-    | none => none
-    | some (d', l) => some (d', none :: l)
- | .ref c' :: r, sa, d =>
+/-- the referent of ONE field, copied: the destination afterwards and the address of the copy (`none` for a scalar and for a null
+reference) -/
+def xchild (rec : St → Nat → Nat → Option (St × Nat)) (src : St) (fk : FK) (sa : Nat) (d : St) : Option (St × Option Nat) :=
+  match fk with
+  | .scal => some (d, none)
+  | .ref c' =>
     match deref src.b.mem sa with
-    | none =>
-      match xchildren rec src r (sa + 8) d with
-      | none => none
-      | some (d', l) => some (d', none :: l)
+    | none => some (d, none)
     | some t =>
       match rec d t c' with
       | none => none
-      | some (d1, t') =>
-        match xchildren rec src r (sa + 8) d1 with
-        | none => none
-        | some (d', l) => some (d', some t' :: l)
- | .uref cs :: r, sa, d =>
+      | some (d1, t') => some (d1, some t')
+  | .uref cs =>
     match deref src.b.mem sa, refClass src (.uref cs) sa with
     | some t, some c' =>
       match rec d t c' with
       | none => none
-      | some (d1, t') =>
-        match xchildren rec src r (sa + 16) d1 with
-        | none => none
-        | some (d', l) => some (d', some t' :: l)
-    | _, _ =>
-      match xchildren rec src r (sa + 16) d with
-      | none => none
-      | some (d', l) => some (d', none :: l)
+      | some (d1, t') => some (d1, some t')
+    | _, _ => some (d, none)
 
-/-- the bytes of the copy: scalars as in the source, every reference encoded relative to ITS slot and pointing to the copy of the
-referent (member index: first member of that class, as `_typeid_from_type` finds it) -/
+/-- the referents of the fields of one node, copied in field order: the destination after all of them, and per field the address
+of the copy -/
+def xchildren (rec : St → Nat → Nat → Option (St × Nat)) (src : St) : Cls → Nat → St → Option (St × List (Option Nat))
+ | [], _, d => some (d, [])
+ | fk :: r, sa, d =>
+    match xchild rec src fk sa d with
+    | none => none
+    | some (d1, x) =>
+      match xchildren rec src r (sa + fk.size) d1 with
+      | none => none
+      | some (d', l) => some (d', x :: l)
+
+/-- the bytes of one field of the copy: a scalar as in the source, a reference encoded relative to ITS slot and pointing to the
+copy of the referent (member index: first member of that class, as `_typeid_from_type` finds it) -/
+def xfield (src : St) (fk : FK) (sa da : Nat) (x : Option Nat) : List UInt8 :=
+  match fk with
+  | .scal => le 8 (fromLE (readAt src.b.mem sa 8))
+  | .ref _ =>
+    match x with
+    | some t' => refBytes da t'
+    | none => refNullBytes
+  | .uref cs =>
+    match x, refClass src (.uref cs) sa with
+    | some t', some c' => urefBytes da t' (cs.idxOf c')
+    | _, _ => urefNullBytes
+
 def xbytes (src : St) : Cls → Nat → Nat → List (Option Nat) → List UInt8
  | [], _, _, _ => []
- | .scal :: r, sa, da, ch => le 8 (fromLE (readAt src.b.mem sa 8)) ++ xbytes src r (sa + 8) (da + 8) ch.tail
- | .ref _ :: r, sa, da, ch =>
-    (match ch.head? with
-     | some (some t') => refBytes da t'
-     | _ => refNullBytes) ++ xbytes src r (sa + 8) (da + 8) ch.tail
- | .uref cs :: r, sa, da, ch =>
-    (match ch.head?, refClass src (.uref cs) sa with
-     | some (some t'), some c' => urefBytes da t' (cs.idxOf c')
-     | _, _ => urefNullBytes) ++ xbytes src r (sa + 16) (da + 16) ch.tail
+ | fk :: r, sa, da, ch => xfield src fk sa da ch.head?.join ++ xbytes src r (sa + fk.size) (da + fk.size) ch.tail
 
 /-- `Cls(h, _buffer=other)` for the node of class `c` at `a` in `src`: the destination afterwards and the address of the copy -/
 def xcopy (u : Univ) (src : St) : Nat → St → Nat → Nat → Option (St × Nat)
